@@ -1,3 +1,69 @@
-From JT Require Import model.PyTreeCheck.
-Theorem C16_placeholder : True. Proof. exact I. Qed.
-Print Assumptions C16_placeholder.
+(* C16 -- '?' axes are per-leaf-position axes of exactly one structured PyTree.
+   A '?name' axis of leaf i of PyTree[..., 'T'] is stored in the single-axis memo under the key
+   "(Leaf i in structure T) name" (qkey i T name): _storage.set_treepath_memo / _array_types 156-159. *)
+From JT Require Import model.PyTreeCheck proofs.CheckFacts proofs.LabelFacts.
+Open Scope string_scope.
+
+Theorem C16_key_of_question_axis : forall i t n,
+  dkey (Some (label_of i t)) n true = Some (qkey i t n) /\ dkey (Some (label_of i t)) n false = Some n.
+Proof. exact dkey_is_qkey. Qed.
+Print Assumptions C16_key_of_question_axis.
+
+(* keys are injective in (leaf position, structure string, axis name) ... *)
+Theorem C16_keys_injective : forall i j t t' n n',
+  nochar ")" t -> nochar ")" t' ->
+  qkey i t n = qkey j t' n' -> i = j /\ t = t' /\ n = n'.
+Proof. exact qkey_inj. Qed.
+Print Assumptions C16_keys_injective.
+
+(* ... and never equal to a plain axis name *)
+Theorem C16_key_never_plain : forall i t n, is_identifier (qkey i t n) = false /\ qkey i t n <> "".
+Proof. exact qkey_not_plain. Qed.
+Print Assumptions C16_key_never_plain.
+
+(* hence: different positions (or structures, or names) are independent ... *)
+Theorem C16_positions_independent : forall (sm : alist Z) i j t t' n n' v,
+  nochar ")" t -> nochar ")" t' -> (i, t, n) <> (j, t', n') ->
+  aget (aset sm (qkey i t n) v) (qkey j t' n') = aget sm (qkey j t' n').
+Proof. exact qkey_independent. Qed.
+Print Assumptions C16_positions_independent.
+
+(* ... and a '?' axis never interacts with a plain axis of the same (or any) name *)
+Theorem C16_plain_axis_independent : forall (sm : alist Z) i t n v p,
+  (is_identifier p = true \/ p = "") ->
+  aget (aset sm (qkey i t n) v) p = aget sm p /\ aget (aset sm p v) (qkey i t n) = aget sm (qkey i t n).
+Proof. exact qkey_plain_independent. Qed.
+Print Assumptions C16_plain_axis_independent.
+
+Theorem C16_identifier_has_no_paren : forall s, is_identifier s = true -> nochar ")" s.
+Proof. exact identifier_no_paren. Qed.
+Print Assumptions C16_identifier_has_no_paren.
+
+Theorem C16_outside_raises : forall st args n bc z sm,
+  bc && (z =? 1)%Z = false -> dim_step None st args (DNamed n bc true) z sm = SRaise AnnotationErr.
+Proof. exact question_outside_raises. Qed.
+Print Assumptions C16_outside_raises.
+
+Theorem C16_beneath_two_raises : forall ischeck str leaf r i s lbl,
+  ps_path s = Some lbl -> leaf_loop ischeck (Some str) (leaf :: r) i s = (Raise AnnotationErr, s).
+Proof. exact question_beneath_two_raises. Qed.
+Print Assumptions C16_beneath_two_raises.
+
+(* same position in two trees annotated T must agree; different positions need not *)
+Example C16_nonvacuous :
+  let arr sh := Leaf (PArr (mkvalue true true "float32" sh)) in
+  let s := mkps [(empty_memo, [])] None false in
+  let L := LArr (AC None "?n") in
+  let '(v1, s1) := leafmatch [] (LPyTree L (Some "T")) (Node KTuple [arr [3]%Z; arr [4]%Z]) s in
+  v1 = Acc /\ fst (leafmatch [] (LPyTree L (Some "T")) (Node KTuple [arr [3]%Z; arr [4]%Z]) s1) = Acc /\
+  fst (leafmatch [] (LPyTree L (Some "T")) (Node KTuple [arr [4]%Z; arr [3]%Z]) s1) = Rej /\
+  show_single (single (fst (top_frame s1))) = "(Leaf 0 in structure T) n=3,(Leaf 1 in structure T) n=4".
+Proof. vm_compute. repeat split. Qed.
+
+(* the full usability clause is FALSE of the current code (known finding F-C16-structureless-nested):
+   a '?' axis inside a structure-less PyTree nested in the structured one raises *)
+Theorem C16_usable_in_structureless_nested_refuted :
+  let arr sh := Leaf (PArr (mkvalue true true "float32" sh)) in
+  exists x, fst (leafmatch [] (LPyTree (LPyTree (LArr (AC None "?n")) None) (Some "T")) x (mkps [(empty_memo, [])] None false)) = Raise AnnotationErr.
+Proof. exists (Node KTuple [Leaf (PArr (mkvalue true true "float32" [3]%Z))]). vm_compute. reflexivity. Qed.
+Print Assumptions C16_usable_in_structureless_nested_refuted.
